@@ -78,6 +78,7 @@ type c10UI struct {
 	start    driver.VerifConfig
 	gotSt    bool
 	inReport bool
+	said     []string // what report generation printed through the UI (part of the transcript)
 }
 
 func (u *c10UI) ReadLine(prompt string) (string, error) {
@@ -101,6 +102,9 @@ func (u *c10UI) add(e c10Event) {
 	}
 }
 func (u *c10UI) Print(args ...interface{}) {
+	if u.inReport {
+		u.said = append(u.said, "P:"+fmt.Sprint(args...))
+	}
 	if u.pos >= 1 && !u.inReport {
 		u.add(c10Event{kind: "p"})
 	}
@@ -109,6 +113,11 @@ func (u *c10UI) PrintErr(args ...interface{}) {
 	// whatever is printed while a report is generated, or after it on the same line (the loop prints
 	// the report's error), belongs to the report: it is covered by the output hash
 	if u.inReport {
+		// the transcript of a command includes what its report said; names of temporary files are not
+		// part of it ("Generating report in profile001.pb.gz")
+		if m := fmt.Sprint(args...); !strings.HasPrefix(m, "Generating report in ") {
+			u.said = append(u.said, "E:"+m)
+		}
 		return
 	}
 	if u.pos >= 1 {
@@ -232,6 +241,7 @@ func c10Session(p *profile.Profile, ref string, cfg0 driver.VerifConfig, lines [
 		off := c10StdoutOffset()
 		var err error
 		ui.inReport = true
+		ui.said = nil
 		func() {
 			defer func() {
 				if r := recover(); r != nil {
@@ -241,7 +251,7 @@ func c10Session(p *profile.Profile, ref string, cfg0 driver.VerifConfig, lines [
 			err = real(pp, cmd, cfg, oo)
 		}()
 		ui.inReport = false
-		out := c10StdoutSince(off) + mw.drain()
+		out := c10StdoutSince(off) + mw.drain() + "\x00ui:" + strings.Join(ui.said, "\x00")
 		if err != nil {
 			out += "\x00err:" + err.Error()
 		}
@@ -351,8 +361,8 @@ func c10Profile(r *Rng) *profile.Profile {
 	for i, s := range p.Sample {
 		// GenProfile can leave a NumUnit list of another length than its NumLabel list (same key
 		// drawn twice): preEncode would panic on such a profile
-		// Units are dropped altogether: conflicting units of one tag make identifyNumLabelUnits emit
-		// warnings in map-iteration order (a C08 matter), which would make outputs unstable.
+		// The generator's units are dropped: conflicting units of SEVERAL tags make identifyNumLabelUnits
+		// emit its warnings in map-iteration order (a C08 matter), which would make outputs unstable.
 		s.NumUnit = nil
 		if i%2 == 0 {
 			if s.Label == nil {
@@ -361,8 +371,32 @@ func c10Profile(r *Rng) *profile.Profile {
 			s.Label["k"] = []string{PickS(r, []string{"v", "w"})}
 		}
 	}
+	// ... but every other profile gets exactly ONE numeric tag recorded with two units, so that report
+	// generation has something to warn about ("For tag K used unit U, also encountered unit(s) ..":
+	// printed to the UI by commands, part of every web page). The key is unique per profile: a
+	// process-wide "already said that" memo keyed by the text cannot hide behind an earlier case.
+	if len(p.Sample) > 0 && r.P(1, 2) {
+		c10TagSeq++
+		key := fmt.Sprintf("lat%d", c10TagSeq)
+		a, b := p.Sample[0], p.Sample[len(p.Sample)-1]
+		put := func(s *profile.Sample, vals []int64, units []string) {
+			if s.NumLabel == nil {
+				s.NumLabel = map[string][]int64{}
+			}
+			s.NumUnit = map[string][]string{key: units}
+			s.NumLabel[key] = vals
+		}
+		if a == b || r.P(1, 3) {
+			put(a, []int64{5, 7}, []string{"ms", "us"})
+		} else {
+			put(a, []int64{5}, []string{PickS(r, []string{"ms", "bytes"})})
+			put(b, []int64{7000}, []string{PickS(r, []string{"us", "kb"})})
+		}
+	}
 	return p
 }
+
+var c10TagSeq int
 
 func c10Types(p *profile.Profile) []string {
 	var ts []string
@@ -605,6 +639,14 @@ func c10RunWeb(c *Ctx, fields []driver.VerifField) {
 	flaky := 0
 	for k := 0; k < c.Budget(150, 1500); k++ {
 		p := c10Profile(c.R)
+		viaChild := k%8 == 3 // the reference comes from a fresh PROCESS: nothing process-wide is shared
+		if viaChild {
+			// both processes must hold the same object: the decode of the same bytes
+			var buf bytes.Buffer
+			p.WriteUncompressed(&buf)
+			os.WriteFile("c10web.pb", buf.Bytes(), 0o644)
+			p = c10ParseBack(p)
+		}
 		p0dump := Render(DumpProfile(p))
 		cfg0 := driver.VerifDefaultConfig()
 		if c.R.P(1, 3) {
@@ -639,7 +681,16 @@ func c10RunWeb(c *Ctx, fields []driver.VerifField) {
 		}
 		concurrent := c.R.Bool()
 		lastFresh := ""
+		state0 := driver.VerifConfigDump(cfg0)
 		fresh := func(rq c10Req) (int, string) {
+			if viaChild {
+				r := c10RunChild(c10RefJob{Mode: "web", Prof: "c10web.pb", Pairs: state0, Path: rq.path, Query: rq.q.Encode()}, &c10WebStats)
+				lastFresh = ""
+				if len(r.Hashes) != 1 {
+					return r.Code, ""
+				}
+				return r.Code, r.Hashes[0]
+			}
 			h, err := driver.VerifWeb(p, o)
 			if err != nil {
 				panic(err)
@@ -679,7 +730,11 @@ func c10RunWeb(c *Ctx, fields []driver.VerifField) {
 			fc, fh := fresh(rq)
 			same := fc == codes[i] && fh == hashes[i]
 			firstFresh := lastFresh
-			for attempt := 0; attempt < 200 && !same && c10RetryBudget > 0; attempt++ { // an unstable output (C08) matches eventually, a leak never
+			maxAtt := 200
+			if viaChild {
+				maxAtt = 6
+			}
+			for attempt := 0; attempt < maxAtt && !same && c10RetryBudget > 0; attempt++ { // an unstable output (C08) matches eventually, a leak never
 				c10RetryBudget--
 				fc2, fh2 := fresh(rq)
 				if fc2 == codes[i] && fh2 == hashes[i] {
@@ -707,8 +762,12 @@ func c10RunWeb(c *Ctx, fields []driver.VerifField) {
 		in := L(S("web"), c19PfTable(strs), c19CfgTerm(cfg0), L(rT...), Bool(concurrent))
 		c.Case("web", in, L(L(oT...), Bool(cfgSame), Bool(unchanged)), true, "op:web", fmt.Sprintf("concurrent:%v", concurrent))
 	}
+	os.Remove("c10web.pb")
 	c.Extra["web_nondeterministic_outputs_skipped"] = flaky
+	c.Extra["web_fresh_references_in_child_processes"] = c10WebStats.childRefs
 }
+
+var c10WebStats c10Stats
 
 // c10FirstDiff shows where two response bodies part (diagnostic copied into the evidence).
 func c10FirstDiff(a, b string) string {
